@@ -39,6 +39,7 @@ type Obl struct {
 	Goal    string
 	Pos     string
 	Cover   bool // must be SAT (vacuity guard)
+	Short   bool // listed as an open known finding: solve with a short budget
 	Text    string
 	gen     *Gen
 	// result
@@ -96,6 +97,8 @@ type Gen struct {
 	curInstr     ssa.Instruction
 	inQuant      int
 	seqElem      map[string]types.Type // element Go type of ghost sequences, by sort
+	rngPred      map[string]bool       // struct range predicates already defined (false: trivially true)
+	cellAllocs   map[*ssa.Alloc]bool   // local struct allocations held as values (address never escapes)
 	lookupPos    token.Pos // source position contract names are resolved at (scoping)
 }
 
